@@ -131,6 +131,8 @@ class Path:
         self.objects: List[Any] = []  # every Obj allocated or materialised on this path
         self.entry_snapshot_done = False
         self.depth = 0
+        self._inc = None  # incremental solver mirroring pc (feasibility queries only)
+        self._inc_n = 0
 
     # -- naming ----------------------------------------------------------------------
     def fresh_name(self, base: str) -> str:
@@ -151,8 +153,19 @@ class Path:
         if z3.is_false(extra):
             return False
         STATS["feas_queries"] += 1
-        v, _, _ = smt_check(self.pc + [extra], FEAS_MS)
-        return v != "unsat"
+        if self._inc is None:
+            self._inc = _mk_solver(FEAS_MS)
+            self._inc_n = 0
+        for a in self.pc[self._inc_n:]:
+            self._inc.add(a)
+        self._inc_n = len(self.pc)
+        t0 = time.time()
+        self._inc.push()
+        self._inc.add(extra)
+        r = self._inc.check()
+        self._inc.pop()
+        STATS["z3_time"] += time.time() - t0
+        return r != z3.unsat
 
     def choose(self, options: List[Tuple[str, Optional[z3.BoolRef]]], label: str = "") -> int:
         """Pick one of `options` ((name, constraint-or-None) pairs); the constraint is added to pc."""
